@@ -99,16 +99,17 @@ Lemma safely_false_falsy : forall b o,
   member_b o b = true -> is_safely_false (boolab_of_b b) = true -> truthy o = false.
 Proof.
   intros b o Hm Hs. unfold is_safely_false in Hs. apply boolab_eqb_eq in Hs.
-  destruct b as [|l|c|c|ms]; cbn [member_b] in Hm.
+  destruct b as [|l|c|c|ms|g]; cbn [member_b] in Hm.
   - discriminate.
   - apply obj_eqb_eq in Hm. subst o.
     destruct l; cbn [boolab_of_b] in Hs; try (apply known_boolab_false in Hs; exact Hs).
-    destruct l; [reflexivity|discriminate].
+    all: match goal with x : list _ |- _ => destruct x end; try discriminate; reflexivity.
   - cbn [boolab_of_b] in Hs. destruct (type_boolab_cases c) as [E|E]; rewrite E in Hs; discriminate.
   - discriminate.
   - destruct o; try discriminate. cbn [boolab_of_b] in Hs. destruct ms as [|m ms].
     + destruct l; [reflexivity|simpl in Hm; discriminate].
     + destruct (forallb fst (m :: ms)); discriminate.
+  - cbn [boolab_of_b] in Hs. destruct (type_boolab_cases (gen_cls g)) as [E|E]; rewrite E in Hs; discriminate.
 Qed.
 
 Lemma truthy_pos_sound : ksound (KTruthy true) (fun o => truthy o = true).
@@ -124,11 +125,11 @@ Lemma safely_true_truthy : forall b o,
   truthy o = true.
 Proof.
   intros b o Hm Hs Hg.
-  destruct b as [|l|c|c|ms]; cbn [member_b] in Hm.
+  destruct b as [|l|c|c|ms|g]; cbn [member_b] in Hm.
   - vm_compute in Hs. discriminate.
   - apply obj_eqb_eq in Hm. subst o.
     destruct l; cbn [boolab_of_b] in Hs; try (apply known_boolab_true in Hs; exact Hs).
-    destruct l; [vm_compute in Hs; discriminate | reflexivity].
+    all: match goal with x : list _ |- _ => destruct x end; [vm_compute in Hs; discriminate | reflexivity].
   - cbn [boolab_of_b] in Hs.
     destruct (type_boolab_cases c) as [E|E]; rewrite E in Hs; [vm_compute in Hs; discriminate|].
     destruct (truthy o) eqn:Et; [reflexivity|]. exfalso.
@@ -143,6 +144,7 @@ Proof.
     destruct (forallb fst (m :: ms)) eqn:Ef; [vm_compute in Hs; discriminate|].
     destruct l as [|e l]; [|reflexivity].
     rewrite (match_members_nil _ Hm) in Ef. discriminate.
+  - destruct g; vm_compute in Hs; discriminate.
 Qed.
 
 Lemma truthy_neg_sound :
@@ -171,58 +173,100 @@ Lemma deliteral_member : forall o b, member_b o b = true ->
   | VAny => True
   | VTyped c => sub_art (class_of o) c = true
   | VSub c => exists k, o = OClass k /\ sub_art k c = true
+  | VGen g => sub_art (class_of o) (gen_cls g) = true
   | _ => False
   end.
 Proof.
-  intros o b Hm. destruct b as [|l|c|c|ms]; simpl in *.
+  intros o b Hm. destruct b as [|l|c|c|ms|g]; simpl in *.
   - exact I.
   - apply obj_eqb_eq in Hm. subst. apply sub_art_refl.
   - exact Hm.
   - destruct o; try discriminate. eexists; split; [reflexivity|exact Hm].
   - destruct o; try discriminate. reflexivity.
+  - destruct g; simpl in *.
+    + destruct o; try discriminate. reflexivity.
+    + destruct o; try discriminate. reflexivity.
+    + apply andb_true_iff in Hm. tauto.
+    + exact Hm.
+Qed.
+
+Lemma deliteral_pat : forall p g, pat_ok p = true -> deliteral p = VGen g -> g = GMapPat.
+Proof.
+  intros p g Hok E. destruct p as [|l|c|c|ms|g0]; simpl in E; try discriminate.
+  destruct g0; simpl in *; try discriminate; inversion E; reflexivity.
+Qed.
+
+Lemma meta_not_gen : forall k g, sub_art (meta k) (gen_cls g) = false.
+Proof. intros k g; destruct k, g; reflexivity. Qed.
+
+Lemma gen_left_typed : forall g c, g <> GSeqPat ->
+  assignable (VGen g) (VTyped c) = sub_art c (gen_cls g).
+Proof. intros g c H. destruct g; try reflexivity. exfalso. apply H. reflexivity. Qed.
+
+Lemma deliteral_not_seqpat : forall b g, deliteral b = VGen g -> g <> GSeqPat.
+Proof.
+  intros b g E. destruct b as [|l|c|c|ms|g0]; simpl in E; try discriminate.
+  destruct g0; simpl in E; try discriminate; inversion E; discriminate.
 Qed.
 
 Lemma overlap_lemma : forall o p b,
   member_b o p = true -> member_b o b = true -> multiple_inheritance o = false ->
-  enum_class_object o = false ->
+  enum_class_object o = false -> pat_ok p = true ->
   assignable (deliteral p) (deliteral b) || assignable (deliteral b) (deliteral p) = true.
 Proof.
-  intros o p b Hp Hb Hd He.
+  intros o p b Hp Hb Hd He Hok.
   pose proof (deliteral_member o p Hp) as Dp. pose proof (deliteral_member o b Hb) as Db.
-  destruct (deliteral p) as [| |c1|c1|] eqn:Ep; try contradiction;
-  destruct (deliteral b) as [| |c2|c2|] eqn:Eb; try contradiction; simpl; try reflexivity;
-    try (apply orb_true_r).
+  destruct (deliteral p) as [| |c1|c1| |g1] eqn:Ep; try contradiction;
+  destruct (deliteral b) as [| |c2|c2| |g2] eqn:Eb; try contradiction;
+    try (simpl; reflexivity); try (simpl; apply orb_true_r).
   - (* typed, typed *)
-    destruct (comparable_of o c1 c2 Hd Dp Db) as [H|H]; rewrite H; [apply orb_true_r|reflexivity].
+    simpl. destruct (comparable_of o c1 c2 Hd Dp Db) as [H|H]; rewrite H; [apply orb_true_r|reflexivity].
   - (* typed c1, sub c2 *)
-    destruct Db as [k [-> Hk]]. simpl in Dp, He. unfold meta in Dp. rewrite He in Dp.
+    simpl. destruct Db as [k [-> Hk]]. simpl in Dp, He. unfold meta in Dp. rewrite He in Dp.
     unfold isinst. simpl. apply (type_vs_sub_overlap c1 c2 Dp).
+  - (* typed c1, gen g2 *)
+    rewrite (gen_left_typed g2 c1 (deliteral_not_seqpat _ _ Eb)). cbn [assignable].
+    destruct (comparable_of o c1 (gen_cls g2) Hd Dp Db) as [H|H]; rewrite H; [apply orb_true_r|reflexivity].
   - (* sub c1, typed c2 *)
-    destruct Dp as [k [-> Hk]]. simpl in Db, He. unfold meta in Db. rewrite He in Db.
+    simpl. destruct Dp as [k [-> Hk]]. simpl in Db, He. unfold meta in Db. rewrite He in Db.
     unfold isinst. simpl. rewrite orb_comm. apply (type_vs_sub_overlap c2 c1 Db).
   - (* sub, sub *)
-    destruct Dp as [k [-> Hk1]]. destruct Db as [k' [E Hk2]]. inversion E; subst k'.
+    simpl. destruct Dp as [k [-> Hk1]]. destruct Db as [k' [E Hk2]]. inversion E; subst k'.
     simpl in Hd.
     destruct (no_diamond_comparable k c1 c2 Hd Hk1 Hk2) as [H|H]; rewrite H; [apply orb_true_r|reflexivity].
+  - (* sub, gen *)
+    destruct Dp as [k [-> Hk]]. simpl in Db. rewrite meta_not_gen in Db. discriminate.
+  - (* gen g1, typed c2 *)
+    rewrite (gen_left_typed g1 c2 (deliteral_not_seqpat _ _ Ep)). cbn [assignable].
+    destruct (comparable_of o (gen_cls g1) c2 Hd Dp Db) as [H|H]; rewrite H; [apply orb_true_r|reflexivity].
+  - (* gen, sub *)
+    destruct Db as [k [-> Hk]]. simpl in Dp. rewrite meta_not_gen in Dp. discriminate.
+  - (* gen, gen *)
+    rewrite (deliteral_pat p g1 Hok Ep) in *. pose proof (deliteral_not_seqpat _ _ Eb) as Hn.
+    simpl in Dp. destruct g2; simpl in *; try reflexivity.
+    + destruct (comparable_of o CMapping CList Hd Dp Db) as [H|H]; vm_compute in H; discriminate.
+    + exfalso. apply Hn. reflexivity.
 Qed.
 
 Lemma overlapping_of_member : forall o pat s,
   existsb (member_b o) pat = true -> member_s o s = true -> multiple_inheritance o = false ->
-  enum_class_object o = false ->
+  enum_class_object o = false -> forallb pat_ok pat = true ->
   overlapping pat s = true.
 Proof.
-  intros o pat s Hp Hm Hd He. apply existsb_exists in Hp. destruct Hp as [p [Hin Hp]].
+  intros o pat s Hp Hm Hd He Hok. apply existsb_exists in Hp. destruct Hp as [p [Hin Hp]].
   unfold overlapping. apply existsb_exists. exists p. split; [exact Hin|].
-  apply (overlap_lemma o p (sbase s) Hp (member_s_base o s Hm) Hd He).
+  rewrite forallb_forall in Hok.
+  apply (overlap_lemma o p (sbase s) Hp (member_s_base o s Hm) Hd He (Hok p Hin)).
 Qed.
 
 Lemma isassign_pos_sound : forall pat po,
+  forallb pat_ok pat = true ->
   ksound (KPred (PIsAssignable pat po) true)
          (fun o => existsb (member_b o) pat = true /\ multiple_inheritance o = false
                    /\ enum_class_object o = false).
 Proof.
-  intros pat po s o Hm [Hp [Hd He]]. simpl. unfold pred_isassignable.
-  rewrite (overlapping_of_member o pat s Hp Hm Hd He). simpl.
+  intros pat po Hok s o Hm [Hp [Hd He]]. simpl. unfold pred_isassignable.
+  rewrite (overlapping_of_member o pat s Hp Hm Hd He Hok). simpl.
   destruct (pat_assignable pat s).
   - destruct (univ_assignable (sbase s) pat).
     + rewrite member_map_plain. exact Hp.
@@ -232,24 +276,39 @@ Qed.
 
 Definition is_vtuple (p : bval) : bool := match p with VTuple _ => true | _ => false end.
 
+(* a str is a Sequence for the class table but is excluded by the sequence pattern *)
+Definition is_str (o : obj) : bool := sub_art (class_of o) CStr.
+
+Lemma seq_not_str : forall K c,
+  sub_art K c = true -> sub_art c CSequence = true -> sub_art c CStr = false -> sub_art K CStr = false ->
+  sub_art K CSequence && negb (sub_art K CStr) = true.
+Proof.
+  intros K c H1 H2 H3 H4. rewrite (sub_art_trans _ _ _ H1 H2), H4. reflexivity.
+Qed.
+
 Lemma assignable_sound : forall p b o,
   assignable p b = true -> member_b o b = true ->
-  is_vtuple p = false ->
+  is_vtuple p = false -> pat_ok p = true ->
   univ_assignable b [p] = false ->
-  wf_obj o = true -> enum_class_object o = false ->
+  wf_obj o = true -> enum_class_object o = false -> (p = VGen GSeqPat -> is_str o = false) ->
   member_b o p = true.
 Proof.
-  intros p b o Ha Hm Hp Hu Hw He.
-  destruct p as [|l|c|c|ms]; simpl in Hp; try discriminate; simpl.
+  intros p b o Ha Hm Hp Hok Hu Hw He Hstr'.
+  pose proof (deliteral_member o b Hm) as Db.
+  destruct p as [|l|c|c|ms|g]; simpl in Hp; try discriminate.
   - reflexivity.
-  - destruct b as [|l'|c'|c'|ms']; simpl in *; try discriminate.
+  - destruct b as [|l'|c'|c'|ms'|g']; simpl in *; try discriminate.
     apply obj_eqb_eq in Ha. subst l'. exact Hm.
-  - destruct b as [|l'|c'|c'|ms']; simpl in *; try discriminate.
+  - destruct b as [|l'|c'|c'|ms'|g']; simpl in *; try discriminate.
     + apply obj_eqb_eq in Hm. subst l'. exact Ha.
     + apply (sub_art_trans _ c' _ Hm Ha).
     + destruct o; try discriminate. simpl. apply (sub_art_trans _ (meta c') _ (meta_mono _ _ Hm) Ha).
     + destruct o; try discriminate. exact Ha.
-  - destruct b as [|l'|c'|c'|ms']; simpl in *; try discriminate.
+    + assert (Hk : sub_art (class_of o) (gen_cls g') = true).
+      { destruct g'; simpl in *; try exact Db; try (apply andb_true_iff in Hm; tauto);
+          destruct o; try discriminate; reflexivity. }
+      apply (sub_art_trans _ _ _ Hk Ha).
+  - destruct b as [|l'|c'|c'|ms'|g']; simpl in *; try discriminate.
     + apply obj_eqb_eq in Hm. subst l'. destruct o; try discriminate. exact Ha.
     + apply orb_true_iff in Ha. destruct Ha as [Ha|Ha].
       * apply cls_eqb_eq in Ha. subst c'. simpl in Hu. discriminate.
@@ -257,11 +316,31 @@ Proof.
         destruct c'; try (vm_compute in Hs; discriminate).
         rewrite (class_of_enummeta o Hw Hm) in He. discriminate He.
     + destruct o; try discriminate. apply (sub_art_trans _ c' _ Hm Ha).
+  - destruct g; simpl in Hok; try discriminate.
+    + (* sequence pattern *)
+      pose proof (Hstr' eq_refl) as Hstr. unfold is_str in Hstr.
+      cbn [member_b]. destruct b as [|l'|c'|c'|ms'|g']; simpl in Ha, Hm, Hu; try discriminate.
+      * apply obj_eqb_eq in Hm. subst l'. exact Ha.
+      * apply andb_true_iff in Ha. destruct Ha as [Ha1 Ha2]. apply negb_true_iff in Ha2.
+        apply (seq_not_str _ c' Hm Ha1 Ha2 Hstr).
+      * destruct o; try discriminate. reflexivity.
+      * assert (Hk : sub_art (class_of o) (gen_cls g') = true).
+        { destruct g'; simpl in *; try exact Db; try (apply andb_true_iff in Hm; tauto);
+            destruct o; try discriminate; reflexivity. }
+        rewrite (sub_art_trans _ _ _ Hk Ha), Hstr. reflexivity.
+    + (* mapping pattern *)
+      cbn [member_b]. destruct b as [|l'|c'|c'|ms'|g']; simpl in Ha, Hm, Hu; try discriminate.
+      * apply obj_eqb_eq in Hm. subst l'. exact Ha.
+      * apply (sub_art_trans _ c' _ Hm Ha).
+      * assert (Hk : sub_art (class_of o) (gen_cls g') = true).
+        { destruct g'; simpl in *; try exact Db; try (apply andb_true_iff in Hm; tauto);
+            destruct o; try discriminate; reflexivity. }
+        apply (sub_art_trans _ _ _ Hk Ha).
 Qed.
 
 Lemma univ_mono : forall b p pat, In p pat -> univ_assignable b pat = false -> univ_assignable b [p] = false.
 Proof.
-  intros b p pat Hin Hu. destruct b as [| |c| |]; simpl in *; try reflexivity; try discriminate.
+  intros b p pat Hin Hu. destruct b as [| |c| | |]; simpl in *; try reflexivity; try discriminate.
   destruct c; try reflexivity. rewrite orb_false_r.
   destruct (is_vsub p) eqn:E; [|reflexivity].
   assert (existsb is_vsub pat = true) by (apply existsb_exists; exists p; split; assumption).
@@ -269,17 +348,21 @@ Proof.
 Qed.
 
 Lemma isassign_neg_sound : forall pat po,
-  forallb (fun p => negb (is_vtuple p)) pat = true ->
+  forallb (fun p => negb (is_vtuple p)) pat = true -> forallb pat_ok pat = true ->
   ksound (KPred (PIsAssignable pat po) false)
-         (fun o => existsb (member_b o) pat = false /\ wf_obj o = true /\ enum_class_object o = false).
+         (fun o => existsb (member_b o) pat = false /\ wf_obj o = true /\ enum_class_object o = false
+                   /\ (po = false -> In (VGen GSeqPat) pat -> is_str o = false)).
 Proof.
-  intros pat po Hpat s o Hm [Hp [Hw He]]. simpl. unfold pred_isassignable.
+  intros pat po Hpat Hok s o Hm [Hp [Hw [He Hstr]]]. simpl. unfold pred_isassignable.
   destruct (negb po && pat_assignable pat s && negb (univ_assignable (sbase s) pat)) eqn:E.
-  - exfalso. apply andb_true_iff in E. destruct E as [E Hu]. apply andb_true_iff in E. destruct E as [_ Ha].
-    apply negb_true_iff in Hu.
+  - exfalso. apply andb_true_iff in E. destruct E as [E Hu]. apply andb_true_iff in E. destruct E as [Hpo Ha].
+    apply negb_true_iff in Hu. apply negb_true_iff in Hpo.
     unfold pat_assignable in Ha. apply existsb_exists in Ha. destruct Ha as [p [Hin Ha]].
     rewrite forallb_forall in Hpat. pose proof (Hpat p Hin) as Hvt. apply negb_true_iff in Hvt.
-    pose proof (assignable_sound p (sbase s) o Ha (member_s_base o s Hm) Hvt (univ_mono _ _ _ Hin Hu) Hw He) as Hmem.
+    rewrite forallb_forall in Hok. pose proof (Hok p Hin) as Hpok.
+    assert (Hmem : member_b o p = true).
+    { apply (assignable_sound p (sbase s) o Ha (member_s_base o s Hm) Hvt Hpok (univ_mono _ _ _ Hin Hu) Hw He).
+      intros ->. apply Hstr; [exact Hpo|exact Hin]. }
     assert (existsb (member_b o) pat = true) by (apply existsb_exists; exists p; split; assumption).
     rewrite H in Hp. discriminate.
   - rewrite member_single. exact Hm.
@@ -299,8 +382,8 @@ Qed.
 Lemma py_eq_refl : forall o, py_eq o o = true.
 Proof.
   intros o. unfold py_eq. destruct (num_of o) eqn:E; [apply Z.eqb_refl|].
-  destruct o; try apply obj_eqb_refl. clear E.
-  induction l as [|e l IH]; simpl; [reflexivity|]. rewrite elt_py_eq_refl. exact IH.
+  destruct o; try apply obj_eqb_refl; clear E.
+  all: induction l as [|e l IH]; simpl; [reflexivity|]; rewrite elt_py_eq_refl; exact IH.
 Qed.
 
 Lemma member_assignable_lit : forall o s,
@@ -309,12 +392,13 @@ Lemma member_assignable_lit : forall o s,
 Proof.
   intros o [b e] Hm Hat Hnk. simpl in Hm. apply andb_true_iff in Hm. destruct Hm as [Hb He].
   unfold assignable_lit. simpl. rewrite He, andb_true_r.
-  destruct b as [|l|c|c|ms]; simpl in *.
+  destruct b as [|l|c|c|ms|g]; simpl in *.
   - reflexivity.
   - exfalso. apply (Hnk l). reflexivity.
   - exact Hb.
   - destruct o; try discriminate. exact Hb.
   - destruct o; try discriminate.
+  - destruct g; simpl in *; try exact Hb; destruct o; try discriminate; exact Hb.
 Qed.
 
 Lemma other_members_spec : forall c n excl j,
@@ -333,7 +417,7 @@ Lemma equals_pos_sound : forall l use_is,
   ksound (KPred (PEquals l use_is) true) (fun o => o = l).
 Proof.
   intros l use_is Hat s o Hm ->. simpl. unfold pred_equals.
-  destruct (sbase s) as [|l'|c|c|ms] eqn:Eb;
+  destruct (sbase s) as [|l'|c|c|ms|g] eqn:Eb;
     try (rewrite (member_assignable_lit l s Hm Hat) by (intros l0; rewrite Eb; discriminate);
          rewrite member_single, member_s_plain; simpl; apply obj_eqb_refl).
   pose proof (member_s_base l s Hm) as Hb. rewrite Eb in Hb. simpl in Hb. apply obj_eqb_eq in Hb. subst l'.
@@ -349,7 +433,7 @@ Lemma equals_neg_sound : forall l use_is,
 Proof.
   intros l use_is Hwl s o Hm [Hw [Hne Hpy]]. simpl. unfold pred_equals.
   pose proof (member_s_base o s Hm) as Hb.
-  destruct (sbase s) as [|l'|c|c|ms] eqn:Eb.
+  destruct (sbase s) as [|l'|c|c|ms|g] eqn:Eb.
   - destruct l; rewrite member_single; exact Hm.
   - simpl in Hb. apply obj_eqb_eq in Hb. subst l'.
     destruct use_is.
@@ -372,6 +456,7 @@ Proof.
       apply other_members_spec; [exact Hj|exact Hne].
   - destruct l; rewrite member_single; exact Hm.
   - destruct l; rewrite member_single; exact Hm.
+  - destruct l; rewrite member_single; exact Hm.
 Qed.
 
 Lemma in_pos_sound : forall ls,
@@ -382,7 +467,7 @@ Proof.
   assert (Hex : existsb (py_eq o) ls = true).
   { apply existsb_exists. exists o. split; [exact Hin|apply py_eq_refl]. }
   rewrite forallb_forall in Hat. pose proof (Hat o Hin) as Hao.
-  destruct (sbase s) as [|l'|c|c|ms] eqn:Eb;
+  destruct (sbase s) as [|l'|c|c|ms|g] eqn:Eb;
     try (apply member_in; exists (plain (VKnown o)); split;
          [ apply in_map_iff; exists o; split; [reflexivity|];
            apply filter_In; split; [exact Hin|];
@@ -400,7 +485,7 @@ Lemma in_neg_sound : forall ls,
 Proof.
   intros ls s o Hm [Hw Hne]. simpl. unfold pred_in.
   pose proof (member_s_base o s Hm) as Hb.
-  destruct (sbase s) as [|l'|c|c|ms] eqn:Eb.
+  destruct (sbase s) as [|l'|c|c|ms|g] eqn:Eb.
   - destruct (in_pattern_type ls); rewrite member_single; exact Hm.
   - simpl in Hb. apply obj_eqb_eq in Hb. subst l'. rewrite Hne. cbn [Bool.eqb]. rewrite member_single. exact Hm.
   - destruct (in_pattern_type ls) as [c0|]; [|rewrite member_single; exact Hm].
@@ -409,6 +494,7 @@ Proof.
     simpl in Hb. pose proof (sub_enum_only _ _ He Hb) as Hc.
     destruct (class_of_enum o c Hw He Hc) as [j [-> Hj]].
     apply other_members_spec; [exact Hj|exact Hne].
+  - destruct (in_pattern_type ls); rewrite member_single; exact Hm.
   - destruct (in_pattern_type ls); rewrite member_single; exact Hm.
   - destruct (in_pattern_type ls); rewrite member_single; exact Hm.
 Qed.
@@ -437,9 +523,11 @@ Lemma len_of_value_sound : forall s o kz k,
   len_of_value s = Some kz -> member_s o s = true -> len_of o = Some k -> kz = Z.of_nat k.
 Proof.
   intros [b e] o kz k Hl Hm Hk. simpl in Hl.
-  destruct b as [|l|c|c|ms]; try discriminate; destruct e; try discriminate; simpl in Hm.
-  - rewrite andb_true_r in Hm. apply obj_eqb_eq in Hm. subst l. rewrite Hk in Hl. simpl in Hl. congruence.
-  - rewrite andb_true_r in Hm. destruct (existsb fst ms) eqn:Ef; [discriminate|].
+  destruct b as [|l|c|c|ms|g]; try discriminate.
+  - destruct e; [|destruct l; discriminate]. simpl in Hm.
+    rewrite andb_true_r in Hm. apply obj_eqb_eq in Hm. subst l.
+    destruct o; try discriminate; rewrite Hk in Hl; simpl in Hl; congruence.
+  - destruct e; try discriminate. simpl in Hm. rewrite andb_true_r in Hm. destruct (existsb fst ms) eqn:Ef; [discriminate|].
     destruct o; try discriminate. simpl in Hk. inversion Hk; subst k. inversion Hl; subst kz.
     rewrite (match_members_len_exact ms l Ef Hm). reflexivity.
 Qed.
@@ -502,3 +590,240 @@ Proof. intros P s o Hm _. cbn [apply_constr apply_pred]. rewrite member_single. 
 
 Lemma always_neg_sound : ksound (KPred PAlways false) (fun _ => False).
 Proof. intros s o Hm []. Qed.
+
+(* ------------------------------------------------------------------ *)
+(* patma.LenPredicate *)
+
+Lemma ety_eqb_eq : forall a b, ety_eqb a b = true -> a = b.
+Proof. destruct a, b; simpl; intros H; try discriminate; reflexivity. Qed.
+
+Lemma sub_tuple_only : forall k, sub_art k CTuple = true -> k = CTuple.
+Proof. destruct k; vm_compute; intros H; try discriminate; reflexivity. Qed.
+
+Lemma class_of_tuple : forall o, wf_obj o = true -> class_of o = CTuple -> exists es, o = OTuple es.
+Proof.
+  intros o Hw Hc. destruct o; simpl in *; try discriminate.
+  - subst c. vm_compute in Hw. discriminate.
+  - subst c. vm_compute in Hw. discriminate.
+  - unfold meta in Hc. destruct (is_enum c); discriminate.
+  - eexists; reflexivity.
+Qed.
+
+Lemma match_repeat : forall t n es,
+  length es = n -> forallb (fun e => elt_member e t) es = true ->
+  match_members (repeat (false, t) n) es = true.
+Proof.
+  induction n as [|n IH]; intros es Hl Hf.
+  - destruct es; [reflexivity|discriminate].
+  - destruct es as [|e es]; [discriminate|]. simpl in *.
+    apply andb_true_iff in Hf. destruct Hf as [He Hf]. rewrite He. simpl.
+    apply IH; [lia|exact Hf].
+Qed.
+
+Lemma forallb_any : forall es, forallb (fun e => elt_member e TAnyE) es = true.
+Proof. induction es; simpl; [reflexivity|]. destruct a; simpl; exact IHes. Qed.
+
+Lemma match_members_all : forall t ms es,
+  forallb (fun m => ety_eqb (snd m) t) ms = true -> match_members ms es = true ->
+  forallb (fun e => elt_member e t) es = true.
+Proof.
+  intros t. induction ms as [|[m t'] ms IH]; intros es Hall Hm.
+  - destruct es; [reflexivity|discriminate].
+  - simpl in Hall. apply andb_true_iff in Hall. destruct Hall as [Ht Hall].
+    apply ety_eqb_eq in Ht. simpl in Ht. subst t'.
+    destruct m.
+    + (* unpacked member *)
+      induction es as [|e es IHes].
+      * reflexivity.
+      * simpl in Hm. apply orb_true_iff in Hm. destruct Hm as [Hm|Hm].
+        -- apply (IH _ Hall Hm).
+        -- apply andb_true_iff in Hm. destruct Hm as [He Hm]. simpl. rewrite He. simpl.
+           apply IHes. simpl. exact Hm.
+    + destruct es as [|e es]; [discriminate|]. simpl in Hm.
+      apply andb_true_iff in Hm. destruct Hm as [He Hm]. simpl. rewrite He. simpl.
+      apply (IH _ Hall Hm).
+Qed.
+
+Lemma tuple_arg_members : forall b o es,
+  tuple_typed b = true -> member_b o b = true -> o = OTuple es ->
+  forallb (fun e => elt_member e (tuple_arg b)) es = true.
+Proof.
+  intros b o es Ht Hm ->. destruct b as [|l|c|c|ms|g]; simpl in Ht; try discriminate.
+  - simpl. apply forallb_any.
+  - simpl in Hm. destruct ms as [|[m t] ms]; [simpl; apply forallb_any|].
+    cbn [tuple_arg]. destruct (forallb (fun m0 => ety_eqb (snd m0) t) ms) eqn:E; [|apply forallb_any].
+    apply (match_members_all t ((m, t) :: ms) es); [|exact Hm].
+    simpl. rewrite E. destruct t; reflexivity.
+Qed.
+
+Lemma tuple_typed_is_tuple : forall b o, tuple_typed b = true -> member_b o b = true -> wf_obj o = true ->
+  exists es, o = OTuple es.
+Proof.
+  intros b o Ht Hm Hw. destruct b as [|l|c|c|ms|g]; simpl in Ht; try discriminate.
+  - destruct c; try discriminate. simpl in Hm. apply (class_of_tuple o Hw (sub_tuple_only _ Hm)).
+  - simpl in Hm. destruct o; try discriminate. eexists; reflexivity.
+Qed.
+
+Lemma lenpat_sound : forall n star positive,
+  ksound (KPred (PLenPat n star) positive)
+         (fun o => wf_obj o = true /\ exists k, len_of o = Some k /\
+                   (if star then Nat.leb n k else Nat.eqb k n) = positive).
+Proof.
+  intros n star positive s o Hm [Hw [k [Hk Hc]]]. cbn [apply_constr apply_pred]. unfold pred_lenpat.
+  destruct (len_of_value s) as [kz|] eqn:El.
+  - rewrite (len_of_value_sound s o kz k El Hm Hk).
+    assert (Hz : (if star then Z.leb (Z.of_nat n) (Z.of_nat k) else Z.eqb (Z.of_nat k) (Z.of_nat n))
+                 = (if star then Nat.leb n k else Nat.eqb k n)).
+    { destruct star.
+      - destruct (Nat.leb n k) eqn:E; [apply Nat.leb_le in E; apply Z.leb_le; lia|apply Nat.leb_gt in E; apply Z.leb_gt; lia].
+      - destruct (Nat.eqb k n) eqn:E; [apply Nat.eqb_eq in E; apply Z.eqb_eq; lia|apply Nat.eqb_neq in E; apply Z.eqb_neq; lia]. }
+    rewrite Hz, Hc. rewrite Bool.eqb_reflx. rewrite member_single. exact Hm.
+  - destruct (positive && negb star && tuple_typed (sbase s)) eqn:E; [|rewrite member_single; exact Hm].
+    apply andb_true_iff in E. destruct E as [E Ht]. apply andb_true_iff in E. destruct E as [Hp Hs].
+    rewrite Hp in Hc. apply negb_true_iff in Hs. rewrite Hs in Hc. apply Nat.eqb_eq in Hc. subst k.
+    destruct (tuple_typed_is_tuple _ o Ht (member_s_base o s Hm) Hw) as [es Ho].
+    rewrite member_single, member_s_plain. subst o. cbn [member_b]. simpl in Hk. injection Hk as Hk.
+    apply match_repeat; [exact Hk|].
+    apply (tuple_arg_members (sbase s) (OTuple es) es Ht (member_s_base _ s Hm) eq_refl).
+Qed.
+
+(* ------------------------------------------------------------------ *)
+(* assert-style constraints: is_instance, is_value, add_annotation *)
+
+Lemma non_numeric_nominal : forall K t, numeric_cls K = false -> sub_art K t = true -> sub K t = true.
+Proof. intros K t; destruct K, t; vm_compute; intros H1 H2; try discriminate; reflexivity. Qed.
+
+Lemma nominal_comparable : forall K t c,
+  diamond_cls K = false -> sub K t = true -> sub K c = true -> sub t c || sub c t = true.
+Proof.
+  assert (H : forallb (fun K => forallb (fun t => forallb (fun c =>
+              implb (negb (diamond_cls K) && sub K t && sub K c) (sub t c || sub c t)) all_cls) all_cls) all_cls = true)
+    by (vm_compute; reflexivity).
+  intros K t c Hd H1 H2.
+  pose proof (forallb_all_cls _ (forallb_all_cls _ (forallb_all_cls _ H K) t) c) as Hi. simpl in Hi.
+  rewrite Hd, H1, H2 in Hi. exact Hi.
+Qed.
+
+Lemma meta_sub_type : forall t c, sub CType c = true -> sub (meta t) c = true.
+Proof. intros t c; destruct t, c; vm_compute; intros H; try discriminate; reflexivity. Qed.
+
+Lemma meta_mono_sub : forall k t, sub_art k t = true -> sub (meta k) (meta t) = true.
+Proof. intros k t; destruct k, t; vm_compute; intros H; try discriminate; reflexivity. Qed.
+
+Lemma member_nominal_cls : forall o b,
+  member_b o b = true -> (forall l, b <> VKnown l) -> (forall t, b <> VSub t) -> b <> VAny ->
+  sub_art (class_of o) (nominal_cls b) = true.
+Proof.
+  intros o b Hm H1 H2 H3. pose proof (deliteral_member o b Hm) as D.
+  destruct b as [|l|c|c|ms|g]; simpl in *.
+  - exfalso. apply H3. reflexivity.
+  - exfalso. apply (H1 l). reflexivity.
+  - exact Hm.
+  - exfalso. apply (H2 c). reflexivity.
+  - destruct o; try discriminate. reflexivity.
+  - destruct g; simpl in *; try exact D; try (apply andb_true_iff in Hm; tauto);
+      destruct o; try discriminate; reflexivity.
+Qed.
+
+Lemma diamond_of : forall o, multiple_inheritance o = false -> diamond_cls (class_of o) = false.
+Proof. intros o H. destruct o; simpl in *; try exact H. apply diamond_meta. Qed.
+
+Definition assert_ok (o : obj) : Prop :=
+  wf_obj o = true /\ multiple_inheritance o = false /\ numeric_like o = false /\ enum_class_object o = false.
+
+Lemma numeric_like_cls : forall o, numeric_like o = false ->
+  (forall k, o <> OClass k) -> numeric_cls (class_of o) = false.
+Proof. intros o H Hn. destruct o; simpl in *; try exact H. exfalso. apply (Hn c). reflexivity. Qed.
+
+Lemma class_object_not_numeric : forall k, numeric_cls (meta k) = false.
+Proof. destruct k; reflexivity. Qed.
+
+Lemma isinstance_pos_sound : forall c,
+  ksound (KIsInstance c true) (fun o => isinst o c = true /\ assert_ok o).
+Proof.
+  intros c s o Hm [Hi [Hw [Hd [Hn He]]]]. cbn [apply_constr]. unfold apply_isinstance.
+  pose proof (member_s_base o s Hm) as Hb.
+  assert (HnK : numeric_cls (class_of o) = false).
+  { destruct o; simpl in *; try exact Hn. apply class_object_not_numeric. }
+  destruct (sbase s) as [|l|t|t|ms|g] eqn:Eb.
+  - rewrite member_single, member_s_plain. simpl. apply sub_sub_art. exact Hi.
+  - simpl in Hb. apply obj_eqb_eq in Hb. subst l. rewrite Hi. cbn [Bool.eqb]. rewrite member_single. exact Hm.
+  - simpl in Hb. pose proof (non_numeric_nominal _ _ HnK Hb) as Hs.
+    pose proof (nominal_comparable _ _ _ (diamond_of o Hd) Hs Hi) as Hc. cbn [nominal_cls].
+    destruct (sub t c); [rewrite member_single; exact Hm|]. simpl in Hc. rewrite Hc.
+    rewrite member_single, member_s_plain. simpl. apply sub_sub_art. exact Hi.
+  - simpl in Hb. destruct o; try discriminate. simpl in He. unfold isinst in *. simpl in *.
+    unfold meta in Hi at 1. rewrite He in Hi. rewrite (meta_sub_type t c Hi). cbn [Bool.eqb].
+    rewrite member_single. exact Hm.
+  - assert (Hk : sub_art (class_of o) CTuple = true) by (simpl in Hb; destruct o; try discriminate; reflexivity).
+    pose proof (non_numeric_nominal _ _ HnK Hk) as Hs.
+    pose proof (nominal_comparable _ _ _ (diamond_of o Hd) Hs Hi) as Hc. cbn [nominal_cls].
+    destruct (sub CTuple c); [rewrite member_single; exact Hm|]. simpl in Hc. rewrite Hc.
+    rewrite member_single, member_s_plain. simpl. apply sub_sub_art. exact Hi.
+  - assert (Hk : sub_art (class_of o) (gen_cls g) = true).
+    { apply (member_nominal_cls o (VGen g) Hb); intros; discriminate. }
+    pose proof (non_numeric_nominal _ _ HnK Hk) as Hs.
+    pose proof (nominal_comparable _ _ _ (diamond_of o Hd) Hs Hi) as Hc. cbn [nominal_cls].
+    destruct (sub (gen_cls g) c); [rewrite member_single; exact Hm|]. simpl in Hc. rewrite Hc.
+    rewrite member_single, member_s_plain. simpl. apply sub_sub_art. exact Hi.
+Qed.
+
+Lemma isinstance_neg_sound : forall c,
+  ksound (KIsInstance c false) (fun o => isinst o c = false /\ assert_ok o).
+Proof.
+  intros c s o Hm [Hi [Hw [Hd [Hn He]]]]. cbn [apply_constr]. unfold apply_isinstance.
+  pose proof (member_s_base o s Hm) as Hb.
+  assert (HnK : numeric_cls (class_of o) = false).
+  { destruct o; simpl in *; try exact Hn. apply class_object_not_numeric. }
+  assert (Hgen : forall t, sub_art (class_of o) t = true -> sub t c = false).
+  { intros t Ht. destruct (sub t c) eqn:E; [|reflexivity].
+    pose proof (sub_trans _ _ _ (non_numeric_nominal _ _ HnK Ht) E) as Hx. unfold isinst in Hi. congruence. }
+  destruct (sbase s) as [|l|t|t|ms|g] eqn:Eb.
+  - rewrite member_single, member_s_plain. reflexivity.
+  - simpl in Hb. apply obj_eqb_eq in Hb. subst l. rewrite Hi. cbn [Bool.eqb]. rewrite member_single. exact Hm.
+  - simpl in Hb. cbn [nominal_cls]. rewrite (Hgen t Hb). rewrite member_single. exact Hm.
+  - simpl in Hb. destruct o; try discriminate. unfold isinst in *. simpl in *.
+    destruct (sub (meta t) c) eqn:E; [|cbn [Bool.eqb]; rewrite member_single; exact Hm].
+    pose proof (sub_trans _ _ _ (meta_mono_sub _ _ Hb) E). congruence.
+  - assert (Hk : sub_art (class_of o) CTuple = true) by (simpl in Hb; destruct o; try discriminate; reflexivity).
+    cbn [nominal_cls]. rewrite (Hgen _ Hk). rewrite member_single. exact Hm.
+  - assert (Hk : sub_art (class_of o) (gen_cls g) = true).
+    { apply (member_nominal_cls o (VGen g) Hb); intros; discriminate. }
+    cbn [nominal_cls]. rewrite (Hgen _ Hk). rewrite member_single. exact Hm.
+Qed.
+
+Lemma isvalue_pos_sound : forall l,
+  ksound (KIsValue l true) (fun o => o = l /\ assert_ok o).
+Proof.
+  intros l s o Hm [-> [Hw [Hd [Hn He]]]]. cbn [apply_constr]. unfold apply_isvalue.
+  pose proof (member_s_base l s Hm) as Hb.
+  assert (Hk : member l [plain (VKnown l)] = true).
+  { rewrite member_single, member_s_plain. simpl. apply obj_eqb_refl. }
+  assert (HnK : numeric_cls (class_of l) = false).
+  { destruct l; simpl in *; try exact Hn. apply class_object_not_numeric. }
+  destruct (sbase s) as [|l'|t|t|ms|g] eqn:Eb.
+  - exact Hk.
+  - simpl in Hb. apply obj_eqb_eq in Hb. subst l'. rewrite obj_eqb_refl. rewrite member_single. exact Hm.
+  - simpl in Hb. cbn [nominal_cls]. unfold isinst. rewrite (non_numeric_nominal _ _ HnK Hb). exact Hk.
+  - simpl in Hb. destruct l; try discriminate. simpl in Hn. rewrite (non_numeric_nominal _ _ Hn Hb). exact Hk.
+  - assert (Hc : sub_art (class_of l) CTuple = true) by (simpl in Hb; destruct l; try discriminate; reflexivity).
+    cbn [nominal_cls]. unfold isinst. rewrite (non_numeric_nominal _ _ HnK Hc). exact Hk.
+  - assert (Hc : sub_art (class_of l) (gen_cls g) = true).
+    { apply (member_nominal_cls l (VGen g) Hb); intros; discriminate. }
+    cbn [nominal_cls]. unfold isinst. rewrite (non_numeric_nominal _ _ HnK Hc). exact Hk.
+Qed.
+
+Lemma isvalue_neg_sound : forall l,
+  ksound (KIsValue l false) (fun o => obj_eqb o l = false).
+Proof.
+  intros l s o Hm Hne. cbn [apply_constr]. unfold apply_isvalue. cbn [negb].
+  pose proof (member_s_base o s Hm) as Hb.
+  destruct (sbase s) as [|l'|t|t|ms|g] eqn:Eb; try (rewrite member_single; exact Hm).
+  simpl in Hb. apply obj_eqb_eq in Hb. subst l'. rewrite Hne. rewrite member_single. exact Hm.
+Qed.
+
+Lemma addannot_sound : forall n p P, ksound (KAddAnnot n p) P.
+Proof.
+  intros n p P s o Hm _. cbn [apply_constr]. destruct p; rewrite member_single; [|exact Hm].
+  apply member_annotate; [exact Hm|reflexivity].
+Qed.
